@@ -1,6 +1,7 @@
 package session
 
 import (
+	"sort"
 	"sync"
 
 	"github.com/256dpi/gomqtt/packet"
@@ -9,6 +10,8 @@ import (
 // PacketStore is a goroutine safe packet store.
 type PacketStore struct {
 	packets map[packet.ID]packet.Generic
+	order   map[packet.ID]uint64
+	next    uint64
 	mutex   sync.RWMutex
 }
 
@@ -16,15 +19,14 @@ type PacketStore struct {
 func NewPacketStore() *PacketStore {
 	return &PacketStore{
 		packets: make(map[packet.ID]packet.Generic),
+		order:   make(map[packet.ID]uint64),
 	}
 }
 
 // NewPacketStoreWithPackets returns a new PacketStore with the provided packets.
 func NewPacketStoreWithPackets(packets []packet.Generic) *PacketStore {
 	// prepare store
-	store := &PacketStore{
-		packets: make(map[packet.ID]packet.Generic),
-	}
+	store := NewPacketStore()
 
 	// add packets
 	for _, pkt := range packets {
@@ -42,6 +44,12 @@ func (s *PacketStore) Save(pkt packet.Generic) {
 
 	id, ok := packet.GetID(pkt)
 	if ok {
+		// remember the position of the first save, a replacement keeps it
+		if _, exists := s.packets[id]; !exists {
+			s.order[id] = s.next
+			s.next++
+		}
+
 		s.packets[id] = pkt
 	}
 }
@@ -62,17 +70,30 @@ func (s *PacketStore) Delete(id packet.ID) {
 
 	// delete packet
 	delete(s.packets, id)
+	delete(s.order, id)
 }
 
-// All will return all packets currently saved in the store.
+// All will return all packets currently saved in the store in the order in
+// which they have been saved first.
 func (s *PacketStore) All() []packet.Generic {
 	s.mutex.RLock()
 	defer s.mutex.RUnlock()
 
+	// collect ids
+	ids := make([]packet.ID, 0, len(s.packets))
+	for id := range s.packets {
+		ids = append(ids, id)
+	}
+
+	// sort ids by position
+	sort.Slice(ids, func(i, j int) bool {
+		return s.order[ids[i]] < s.order[ids[j]]
+	})
+
 	// collect packets
 	var all []packet.Generic
-	for _, pkt := range s.packets {
-		all = append(all, pkt)
+	for _, id := range ids {
+		all = append(all, s.packets[id])
 	}
 
 	return all
@@ -85,4 +106,5 @@ func (s *PacketStore) Reset() {
 
 	// reset packets
 	s.packets = make(map[packet.ID]packet.Generic)
+	s.order = make(map[packet.ID]uint64)
 }
